@@ -75,3 +75,7 @@ func VerifSetExpireAt(m *RedisMessage, v int64)  { m.setExpireAt(v) }
 func VerifGetExpireAt(m *RedisMessage) int64     { return m.getExpireAt() }
 func VerifTyp(m *RedisMessage) byte              { return m.typ }
 func VerifRedisError(m RedisMessage) *RedisError { return (*RedisError)(&m) }
+
+// VerifStr and VerifValues expose the raw string and the elements of a message of any type.
+func VerifStr(m *RedisMessage) string            { return m.string() }
+func VerifValues(m *RedisMessage) []RedisMessage { return m.values() }
